@@ -108,6 +108,26 @@ def intDiv (a b : Int) : R Int := if b = 0 then throw .explicit else pure (Int.t
 /-- `a % b` likewise -/
 def intMod (a b : Int) : R Int := if b = 0 then throw .explicit else pure (Int.tmod a b)
 
+/-! ### float64 (T2)
+A finite `float64` is the hand model's `Pct` = ± num / 2^exp (NaN and ±Inf are not represented).  Constants are
+emitted as exact `Pct.mk` values; the only operations are the comparisons and `int(float64(n) * p)`. -/
+/-- the value of `p` times `2^p.exp`, signed -/
+@[reducible] def f64Num (p : Pct) : Int := if p.neg then -(p.num : Int) else (p.num : Int)
+/-- `a < b` on floats (cross-multiplied by the positive denominators) -/
+def f64Lt (a b : Pct) : Prop := f64Num a * 2 ^ b.exp < f64Num b * 2 ^ a.exp
+/-- `a <= b` on floats -/
+def f64Le (a b : Pct) : Prop := f64Num a * 2 ^ b.exp ≤ f64Num b * 2 ^ a.exp
+/-- `a == b` on floats (`-0.0 == 0.0`) -/
+def f64Eq (a b : Pct) : Prop := f64Num a * 2 ^ b.exp = f64Num b * 2 ^ a.exp
+instance (a b : Pct) : Decidable (f64Lt a b) := inferInstanceAs (Decidable (_ < _))
+instance (a b : Pct) : Decidable (f64Le a b) := inferInstanceAs (Decidable (_ ≤ _))
+instance (a b : Pct) : Decidable (f64Eq a b) := inferInstanceAs (Decidable (_ = _))
+/-- `int(float64(n) * p)`: the model's product-round-truncate on the magnitudes, sign of the product (Go
+truncates toward zero; rounding is symmetric).  As in the hand model, `float64(n)` is taken to be exact
+(true for |n| ≤ 2^53) and the result to fit an `int`. -/
+def f64MulTrunc (n : Int) (p : Pct) : Int :=
+  if (decide (n < 0)) != p.neg then -(mulRoundTrunc n.natAbs p.num p.exp : Int) else (mulRoundTrunc n.natAbs p.num p.exp : Int)
+
 /-! ### Editor -/
 /-- `ed.ref.parent` (nil dereference on a root editor) -/
 def edRefParent : Editor α → R (Editor α) | .root _ _ => throw .explicit | .sub _ _ p _ _ => pure p
